@@ -200,9 +200,11 @@ class SyncedList(SyncedCollection, MutableSequence):
                 with self._load_and_save:
                     self._update(data, _validate=True)
                 return
-            self._update(data)
-            with self._thread_lock:
-                self._save()
+            # The root is replaced wholesale: no load is needed, but the
+            # merge and the save must happen under the locks.
+            self._validate(data)
+            with self._lock_and_save:
+                self._update(data, _validate=True)
         else:
             raise ValueError(
                 "Unsupported type: {}. The data must be a non-string sequence or None.".format(
@@ -260,9 +262,8 @@ class SyncedList(SyncedCollection, MutableSequence):
             with self._load_and_save:
                 self._data.clear()
             return
-        self._data = []
-        with self._thread_lock:
-            self._save()
+        with self._lock_and_save:
+            self._data = []
 
     def __lt__(self, other):
         if isinstance(other, type(self)):
